@@ -119,8 +119,8 @@ def bad_map(n, e1, e2, m):
     return None
 
 
-def call_iso(acc, n, e0, params, chooser_mode, dev_bound, seed):
-    """iso_finder with the generator owned (chooser_mode) or really seeded."""
+def call_iso(acc, n, e0, params, chooser_mode, dev_bound, seed, answers=None):
+    """iso_finder with the generator owned (chooser_mode) or really seeded; answers: replay exactly one recorded execution."""
     from graphiq.utils.relabel_module import iso_finder
     a0 = adj(n, e0)
     case = {"n": n, "edges": [list(e) for e in e0], "params": params, "seed": seed, "owned": chooser_mode}
@@ -159,7 +159,7 @@ def call_iso(acc, n, e0, params, chooser_mode, dev_bound, seed):
                         return ("ok", iso_finder(a0.copy(), n_iso, seed=None, **kw))
                 except Exception as e:
                     return ("exc", e)
-    for ch, (status, res) in explore(body, dev_bound=dev_bound, max_exec=3000):
+    for ch, (status, res) in (_one(body, answers) if answers is not None else explore(body, dev_bound=dev_bound, max_exec=3000)):
         acc.evaluations += 1
         acc.transitions += 1
         c2 = dict(case, answers=ch.choices)
@@ -170,6 +170,13 @@ def call_iso(acc, n, e0, params, chooser_mode, dev_bound, seed):
         acc.validated += 1
     if explore.capped:
         acc.caps_hit += 1
+
+
+def _one(body, answers):
+    from ..explore import Chooser
+    ch = Chooser(list(answers))
+    yield ch, body(ch)
+    explore.capped = False
 
 
 def iso_grid(n):
@@ -203,6 +210,92 @@ def check_orbit_list(acc, n, e0, res, distinct, case, site, orbit=None):
         acc.violation("orbit", site, "repeated-graph", case, "pairwise different", [sorted(e) for e in es])
 
 
+def do_relabel(acc, rm, n, e0, a0, perm):
+    case = {"n": n, "edges": [list(e) for e in e0], "perm": list(perm)}
+    acc.evaluations += 2
+    acc.transitions += 2
+    want = G.relabel(G.norm(e0), perm)
+    try:
+        r = rm.relabel(a0.copy(), np.array(perm))
+        if np.asarray(r).shape != (n, n) or edges_of_adj(r) != want or not np.array_equal(r, np.asarray(r).T):
+            acc.violation("relabel", "relabel", "wrong-graph", case, sorted(want), sorted(edges_of_adj(r)))
+            return case
+    except Exception as e:
+        acc.violation("relabel", "relabel", "raises-" + type(e).__name__, case, sorted(want), repr(e)[:200])
+        return case
+    for form in ("array", "nx", "nx-relabelled"):
+        try:
+            if form == "array":
+                m = rm.get_relabel_map(a0.copy(), np.asarray(r).copy())
+            elif form == "nx":
+                m = rm.get_relabel_map(gq.nx_graph(n, e0), gq.nx_graph(n, sorted(want)))
+            else:
+                # the relabelled graph as networkx produces it: same insertion order, new names
+                g1 = gq.nx_graph(n, e0)
+                m = rm.get_relabel_map(g1, nx.relabel_nodes(g1, dict(enumerate(perm))))
+            bad = bad_map(n, G.norm(e0), want, m)
+            if bad:
+                acc.violation("relabel", "get_relabel_map", "map-is-not-an-isomorphism", dict(case, form=form), "isomorphism", bad)
+        except Exception as e:
+            acc.violation("relabel", "get_relabel_map", "raises-" + type(e).__name__, dict(case, form=form), "a map", repr(e)[:200])
+    acc.validated += 1
+    return case
+
+
+def do_orbit_det(acc, rm, n, e0, orbit, cd, ost, wi, rep):
+    g0 = gq.nx_graph(n, e0)
+    case = {"n": n, "edges": [list(e) for e in e0], "comp_depth": cd, "orbit_size_thresh": ost, "with_iso": wi, "rep_allowed": rep, "rand": False}
+    acc.evaluations += 1
+    acc.transitions += 1
+    try:
+        with core.time_limit(HORIZON):
+            res = rm.lc_orbit_finder(g0.copy(), comp_depth=cd, orbit_size_thresh=ost, with_iso=wi, rand=False, rep_allowed=rep)
+    except Exception as e:
+        acc.violation("orbit", "lc_orbit_finder", "raises-" + type(e).__name__, case, "list of graphs", repr(e)[:200])
+        return
+    check_orbit_list(acc, n, e0, res, not rep, case, "lc_orbit_finder", orbit)
+    if ost is not None and len(res) > ost:
+        acc.violation("orbit", "lc_orbit_finder", "more-than-orbit_size_thresh", case, ost, len(res))
+    acc.validated += 1
+
+
+def do_orbit_rand(acc, rm, n, e0, orbit, cd, ost, answers=None):
+    g0 = gq.nx_graph(n, e0)
+    case = {"n": n, "edges": [list(e) for e in e0], "comp_depth": cd, "orbit_size_thresh": ost, "rand": True}
+
+    def body(ch):
+        with Owned(ch, dev=True):
+            try:
+                with core.time_limit(HORIZON):
+                    return ("ok", rm.lc_orbit_finder(g0.copy(), comp_depth=cd, orbit_size_thresh=ost, rand=True))
+            except Exception as e:
+                return ("exc", e)
+    for ch, (status, res) in (_one(body, answers) if answers is not None else explore(body, dev_bound=1, max_exec=400)):
+        acc.evaluations += 1
+        acc.transitions += 1
+        c2 = dict(case, answers=ch.choices)
+        if status == "exc":
+            acc.violation("orbit", "lc_orbit_finder:rand", "raises-" + type(res).__name__, c2, "list of graphs", repr(res)[:200])
+            continue
+        check_orbit_list(acc, n, e0, res, True, c2, "lc_orbit_finder:rand", orbit)
+        acc.validated += 1
+    if explore.capped:
+        acc.caps_hit += 1
+
+
+def do_named(acc, rm, fn, n, e0, orbit=None):
+    case = {"n": n, "edges": [list(e) for e in e0], "fn": fn}
+    acc.evaluations += 1
+    try:
+        with core.time_limit(HORIZON):
+            res = getattr(rm, fn)(gq.nx_graph(n, e0))
+        check_orbit_list(acc, n, e0, res, fn != "depth_first_orbit", case, fn, orbit)
+        return True
+    except Exception as e:
+        acc.violation("orbit", fn, "raises-" + type(e).__name__, case, "list of graphs", repr(e)[:200])
+        return False
+
+
 def run_shard(shard, tier, acc):
     import graphiq.utils.relabel_module as rm
     kind = shard["kind"]
@@ -213,34 +306,7 @@ def run_shard(shard, tier, acc):
             e0 = [p for i, p in enumerate(pairs) if (mask >> i) & 1]
             a0 = adj(n, e0)
             for perm in itertools.permutations(range(n)):
-                case = {"n": n, "edges": [list(e) for e in e0], "perm": list(perm)}
-                acc.evaluations += 2
-                acc.transitions += 2
-                want = G.relabel(G.norm(e0), perm)
-                try:
-                    r = rm.relabel(a0.copy(), np.array(perm))
-                    if np.asarray(r).shape != (n, n) or edges_of_adj(r) != want or not np.array_equal(r, np.asarray(r).T):
-                        acc.violation("relabel", "relabel", "wrong-graph", case, sorted(want), sorted(edges_of_adj(r)))
-                        continue
-                except Exception as e:
-                    acc.violation("relabel", "relabel", "raises-" + type(e).__name__, case, sorted(want), repr(e)[:200])
-                    continue
-                for form in ("array", "nx", "nx-relabelled"):
-                    try:
-                        if form == "array":
-                            m = rm.get_relabel_map(a0.copy(), np.asarray(r).copy())
-                        elif form == "nx":
-                            m = rm.get_relabel_map(gq.nx_graph(n, e0), gq.nx_graph(n, sorted(want)))
-                        else:
-                            # the relabelled graph as networkx produces it: same insertion order, new names
-                            g1 = gq.nx_graph(n, e0)
-                            m = rm.get_relabel_map(g1, nx.relabel_nodes(g1, dict(enumerate(perm))))
-                        bad = bad_map(n, G.norm(e0), want, m)
-                        if bad:
-                            acc.violation("relabel", "get_relabel_map", "map-is-not-an-isomorphism", dict(case, form=form), "isomorphism", bad)
-                    except Exception as e:
-                        acc.violation("relabel", "get_relabel_map", "raises-" + type(e).__name__, dict(case, form=form), "a map", repr(e)[:200])
-                acc.validated += 1
+                case = do_relabel(acc, rm, n, e0, a0, perm)
             acc.state((n, mask))
             if e0 and len(e0) < len(pairs):
                 acc.nontriv((n, mask))
@@ -278,79 +344,25 @@ def run_shard(shard, tier, acc):
             orbit = G.lc_orbit(n, G.norm(e0))
             g0 = gq.nx_graph(n, e0)
             for cd, ost, wi, rep in itertools.product((None, 1, 2), (None, 1, 3), (False, True), (False, True)):
-                case = {"n": n, "edges": [list(e) for e in e0], "comp_depth": cd, "orbit_size_thresh": ost, "with_iso": wi, "rep_allowed": rep, "rand": False}
                 if rep and cd is None:
                     continue  # repetitions allowed without a depth bound never terminates by design
-                acc.evaluations += 1
-                acc.transitions += 1
-                try:
-                    with core.time_limit(HORIZON):
-                        res = rm.lc_orbit_finder(g0.copy(), comp_depth=cd, orbit_size_thresh=ost, with_iso=wi, rand=False, rep_allowed=rep)
-                except Exception as e:
-                    acc.violation("orbit", "lc_orbit_finder", "raises-" + type(e).__name__, case, "list of graphs", repr(e)[:200])
-                    continue
-                check_orbit_list(acc, n, e0, res, not rep, case, "lc_orbit_finder", orbit)
-                if ost is not None and len(res) > ost:
-                    acc.violation("orbit", "lc_orbit_finder", "more-than-orbit_size_thresh", case, ost, len(res))
-                acc.validated += 1
+                do_orbit_det(acc, rm, n, e0, orbit, cd, ost, wi, rep)
             # random walk variant: draws owned, <= 1 deviation
             for cd, ost in ((1, None), (2, 3)):
-                case = {"n": n, "edges": [list(e) for e in e0], "comp_depth": cd, "orbit_size_thresh": ost, "rand": True}
-
-                def body(ch):
-                    with Owned(ch, dev=True):
-                        try:
-                            with core.time_limit(HORIZON):
-                                return ("ok", rm.lc_orbit_finder(g0.copy(), comp_depth=cd, orbit_size_thresh=ost, rand=True))
-                        except Exception as e:
-                            return ("exc", e)
-                for ch, (status, res) in explore(body, dev_bound=1, max_exec=400):
-                    acc.evaluations += 1
-                    acc.transitions += 1
-                    c2 = dict(case, answers=ch.choices)
-                    if status == "exc":
-                        acc.violation("orbit", "lc_orbit_finder:rand", "raises-" + type(res).__name__, c2, "list of graphs", repr(res)[:200])
-                        continue
-                    check_orbit_list(acc, n, e0, res, True, c2, "lc_orbit_finder:rand", orbit)
-                    acc.validated += 1
-                if explore.capped:
-                    acc.caps_hit += 1
+                do_orbit_rand(acc, rm, n, e0, orbit, cd, ost)
             if n >= 2:
-                case = {"n": n, "edges": [list(e) for e in e0], "fn": "depth_first_orbit"}
-                acc.evaluations += 1
-                try:
-                    with core.time_limit(HORIZON):
-                        res = rm.depth_first_orbit(g0.copy())
-                    check_orbit_list(acc, n, e0, res, False, case, "depth_first_orbit", orbit)
-                except Exception as e:
-                    acc.violation("orbit", "depth_first_orbit", "raises-" + type(e).__name__, case, "list of graphs", repr(e)[:200])
+                do_named(acc, rm, "depth_first_orbit", n, e0, orbit)
             acc.state(("orbit", n, mask))
             if e0 and len(e0) < len(pairs):
                 acc.nontriv(("orbit", n, mask))
         acc.sample({"n": n, "edges": [list(e) for e in e0], "fn": "lc_orbit_finder"})
     elif kind == "special":
         for m in (4, 6, 8):
-            e0 = structured("repeater", m)
-            case = {"n": m, "edges": [list(e) for e in e0], "fn": "rgs_orbit_finder"}
-            acc.evaluations += 1
-            try:
-                with core.time_limit(HORIZON):
-                    res = rm.rgs_orbit_finder(gq.nx_graph(m, e0))
-                check_orbit_list(acc, m, e0, res, True, case, "rgs_orbit_finder")
+            if do_named(acc, rm, "rgs_orbit_finder", m, structured("repeater", m)):
                 acc.nontriv(("rgs", m))
-            except Exception as e:
-                acc.violation("orbit", "rgs_orbit_finder", "raises-" + type(e).__name__, case, "list of graphs", repr(e)[:200])
         for m in range(3, 9):
-            e0 = structured("path", m)
-            case = {"n": m, "edges": [list(e) for e in e0], "fn": "linear_partial_orbit"}
-            acc.evaluations += 1
-            try:
-                with core.time_limit(HORIZON):
-                    res = rm.linear_partial_orbit(gq.nx_graph(m, e0))
-                check_orbit_list(acc, m, e0, res, True, case, "linear_partial_orbit")
+            if do_named(acc, rm, "linear_partial_orbit", m, structured("path", m)):
                 acc.nontriv(("linear", m))
-            except Exception as e:
-                acc.violation("orbit", "linear_partial_orbit", "raises-" + type(e).__name__, case, "list of graphs", repr(e)[:200])
 
 
 def structured(name, n):
@@ -371,7 +383,19 @@ def structured(name, n):
 
 
 def replay_case(case, acc):
-    raise core.HarnessError("C16 cases are replayed by ./check C16 quick (parameters recorded in the case)")
+    import graphiq.utils.relabel_module as rm
+    n = case["n"]
+    e0 = [tuple(e) for e in case["edges"]]
+    if "perm" in case:
+        do_relabel(acc, rm, n, e0, adj(n, e0), tuple(case["perm"]))
+    elif "params" in case:
+        call_iso(acc, n, e0, case["params"], bool(case.get("owned")), None, case.get("seed"), answers=case.get("answers") if case.get("owned") else None)
+    elif "fn" in case:
+        do_named(acc, rm, case["fn"], n, e0)
+    elif case.get("rand"):
+        do_orbit_rand(acc, rm, n, e0, G.lc_orbit(n, G.norm(e0)), case["comp_depth"], case["orbit_size_thresh"], answers=case.get("answers", []))
+    else:
+        do_orbit_det(acc, rm, n, e0, G.lc_orbit(n, G.norm(e0)), case["comp_depth"], case["orbit_size_thresh"], case["with_iso"], case["rep_allowed"])
 
 
 PREDICATES = {}
